@@ -13,7 +13,9 @@ T == ndJsonDeserialize(IOEnv.TRACE_FILE)
 
 VARIABLES num, stopFlag, wcancel, extCancel, mu, waiting, woken, wpc, tpc, curN, tdisc, ticks, spc, sdisc,
           iter, ids, limitReached, requested, late, started, dropped, stopDropped, discarded,
-          tr, i, moved, rejected
+          tr, i, moved, rejected,
+          cur,        \* the goroutine the scheduler released last and that has not arrived yet ("" = none)
+          ahead       \* cur has already been stepped (as a helper) up to the pc of its pending arrival
 
 CONSTANTS MaxWorkers, MaxIterC      \* all traces of one file share the limit (the harness groups them)
 AllW == {"w1", "w2", "w3"}
@@ -21,12 +23,12 @@ TP == INSTANCE TriggerPool WITH Workers <- AllW, TickSizes <- {0}, MaxTicks <- 1
         AllowCancel <- TRUE, BodiesEnd <- TRUE, LimitDrains <- TRUE
 
 Arr == T[tr].arr
-tvars == <<tr, i, moved, rejected>>
+tvars == <<tr, i, moved, rejected, cur, ahead>>
 svars == <<num, stopFlag, wcancel, extCancel, mu, waiting, woken, wpc, tpc, curN, tdisc, ticks, spc, sdisc,
            iter, ids, limitReached, requested, late, started, dropped, stopDropped, discarded>>
 
 \* workers that do not exist in this trace are parked in "exit" from the start
-Init == /\ tr \in 1..Len(T) /\ i = 0 /\ moved = FALSE /\ rejected = FALSE
+Init == /\ tr \in 1..Len(T) /\ i = 0 /\ moved = FALSE /\ rejected = FALSE /\ cur = "" /\ ahead = FALSE
         \* TriggerPool!Init, except that workers which do not exist in this trace sit in "exit" from the start
         /\ num = 0 /\ stopFlag = FALSE /\ wcancel = FALSE /\ extCancel = FALSE /\ mu = "" /\ waiting = {} /\ woken = {}
         /\ tpc = "idle" /\ curN = 0 /\ tdisc = 0 /\ ticks = 0 /\ spc = "wait" /\ sdisc = 0 /\ iter = 0 /\ ids = {}
@@ -65,38 +67,64 @@ ProcStep(a) == CASE a[1] = "T" -> (TP!TCtx \/ TP!TLock \/ TP!TSwap \/ TP!TUnlock
 \* (which performs TStart with the logged size), and the final comparison
 IsInitial(a) == a[2] \in {"tp.w.started", "C.cancel", "T.first"}
 
+\* the pending (not yet consumed) arrival of goroutine p: the first one after position i
+PendingIdx(p) == CHOOSE j \in (i + 1)..Len(Arr) : Arr[j][1] = p /\ Arr[j][2] # "REL"
+                     /\ \A k \in (i + 1)..(j - 1) : ~(Arr[k][1] = p /\ Arr[k][2] # "REL")
+HasPending(p) == \E j \in (i + 1)..Len(Arr) : Arr[j][1] = p /\ Arr[j][2] # "REL"
+Plain(a) == ~IsInitial(a) /\ a[2] \notin {"T.tick", "T.last", "C.done", "END", "REL"}
+
 Consume ==
     /\ i < Len(Arr) /\ ~rejected
     /\ LET a == Arr[i + 1] IN
-       CASE IsInitial(a) -> /\ i' = i + 1 /\ moved' = FALSE /\ UNCHANGED <<svars, tr, rejected>>
+       CASE a[2] = "REL" ->
+              \* the scheduler releases goroutine a[1]: until it arrives it is "mid-segment"
+              /\ cur' = a[1] /\ ahead' = FALSE /\ i' = i + 1 /\ moved' = FALSE /\ UNCHANGED <<svars, tr, rejected>>
+         [] IsInitial(a) -> /\ i' = i + 1 /\ moved' = FALSE /\ UNCHANGED <<svars, tr, rejected, cur, ahead>>
          [] a[2] = "T.tick" ->
               \* the ticker is about to call Trigger(n); if its previous call is still at the context check it
               \* returned there (context done) - that is the only way back to idle without publishing
-              IF tpc = "idle" THEN /\ TStartN(a[3]) /\ i' = i + 1 /\ moved' = FALSE /\ UNCHANGED <<tr, rejected>>
-              ELSE /\ tpc = "ctx" /\ wcancel /\ TP!TCtx /\ i' = i /\ moved' = TRUE /\ UNCHANGED <<tr, rejected>>
+              IF tpc = "idle" THEN /\ TStartN(a[3]) /\ i' = i + 1 /\ moved' = FALSE /\ cur' = "" /\ ahead' = FALSE /\ UNCHANGED <<tr, rejected>>
+              ELSE /\ tpc = "ctx" /\ wcancel /\ TP!TCtx /\ i' = i /\ moved' = TRUE /\ UNCHANGED <<tr, rejected, cur, ahead>>
          [] a[2] = "T.last" ->
-              IF tpc = "idle" THEN /\ i' = i + 1 /\ moved' = FALSE /\ UNCHANGED <<svars, tr, rejected>>
-              ELSE /\ tpc = "ctx" /\ wcancel /\ TP!TCtx /\ i' = i /\ moved' = TRUE /\ UNCHANGED <<tr, rejected>>
+              IF tpc = "idle" THEN /\ i' = i + 1 /\ moved' = FALSE /\ cur' = "" /\ ahead' = FALSE /\ UNCHANGED <<svars, tr, rejected>>
+              ELSE /\ tpc = "ctx" /\ wcancel /\ TP!TCtx /\ i' = i /\ moved' = TRUE /\ UNCHANGED <<tr, rejected, cur, ahead>>
          [] a[2] = "C.done" ->
-              \* the canceller called cancel(): a no-op if the limit path had already cancelled the worker context
+              \* logged just before the canceller calls cancel(): a no-op if the limit path had already cancelled
               /\ IF wcancel THEN UNCHANGED svars ELSE TP!Cancel
-              /\ i' = i + 1 /\ moved' = FALSE /\ UNCHANGED <<tr, rejected>>
+              /\ i' = i + 1 /\ moved' = FALSE /\ cur' = "" /\ ahead' = FALSE /\ UNCHANGED <<tr, rejected>>
          [] a[2] = "END" ->
               \* everything has finished: the specification's ledger equals the real statistics
-              /\ i' = i + 1 /\ moved' = FALSE /\ UNCHANGED <<svars, tr>>
+              /\ i' = i + 1 /\ moved' = FALSE /\ UNCHANGED <<svars, tr, cur, ahead>>
               /\ rejected' = ~(/\ started = a[3] /\ dropped + stopDropped = a[4]
                                /\ TP!NoOverCount /\ TP!Gapless /\ (\A w \in AllW : wpc[w] = "exit") /\ spc = "done" /\ tpc = "idle")
+         [] a[1] = cur /\ ahead ->
+              \* the released goroutine had already been stepped to this pc while others arrived
+              /\ i' = i + 1 /\ moved' = FALSE /\ cur' = "" /\ ahead' = FALSE /\ UNCHANGED <<svars, tr, rejected>>
          [] OTHER ->
               /\ ProcStep(a)
               /\ IF Reached(a) THEN i' = i + 1 /\ moved' = FALSE ELSE i' = i /\ moved' = TRUE
+              /\ cur' = IF Reached(a) /\ a[1] = cur THEN "" ELSE cur
+              /\ ahead' = ahead
               /\ UNCHANGED <<tr, rejected>>
 
-\* the real code arrived somewhere the specification cannot follow
-Reject == /\ i < Len(Arr) /\ ~rejected /\ ~ENABLED Consume
-          /\ rejected' = TRUE /\ UNCHANGED <<svars, tr, i, moved>>
-Next == Consume \/ Reject
+\* Another goroutine arrives while the released one is still between two yield points (e.g. the stop goroutine
+\* wakes up as soon as the released worker has cancelled the context, before that worker reaches its next yield
+\* point): the released goroutine may take its own steps first, up to the pc of its pending arrival.
+Helper ==
+    /\ i < Len(Arr) /\ ~rejected /\ cur # "" /\ ~ahead
+    /\ Arr[i + 1][1] # cur /\ Arr[i + 1][2] # "REL" /\ ~moved
+    /\ HasPending(cur) /\ Plain(Arr[PendingIdx(cur)])
+    /\ LET b == Arr[PendingIdx(cur)] IN
+         /\ ProcStep(b)
+         /\ ahead' = Reached(b)
+    /\ UNCHANGED <<tr, i, moved, rejected, cur>>
 
-Accepted == ~rejected
+Next == Consume \/ Helper
+
+\* acceptance is existential: some interleaving of the specification explains the log
+Done == i = Len(Arr) /\ ~rejected
+Mark == Done => PrintT(<<"ACCEPTED", tr>>)
+StuckMark == (i < Len(Arr) /\ ~rejected /\ ~ENABLED Next) => PrintT(<<"STUCK", tr, i>>)
 \* safety properties of the specification hold along the way as well
 NoOverCount == TP!NoOverCount
 MutexOK == TP!MutexOK
